@@ -75,6 +75,8 @@ const prelude = `(set-option :produce-models true)
 (assert (forall ((a Str) (lo Int) (hi Int) (i Int)) (! (=> (and (<= 0 lo) (<= lo hi) (<= hi (slen a)) (<= 0 i) (< i (- hi lo))) (= (sat (ssub a lo hi) i) (sat a (+ lo i)))) :pattern ((sat (ssub a lo hi) i)))))
 (declare-datatypes ((Slice 0)) (((mk-slice (s-ref Int) (s-off Int) (s-len Int) (s-cap Int)))))
 (define-fun nil-slice () Slice (mk-slice 0 0 0 0))
+(declare-fun sidx (Int Int) Int)
+(assert (forall ((o Int) (i Int)) (! (= (sidx o i) (+ o i)) :pattern ((sidx o i)))))
 (declare-sort Iface 0)
 (declare-fun itag (Iface) Int)
 (declare-const inil Iface)
@@ -524,7 +526,7 @@ func (vc *VC) rangeFact(t types.Type, term string) string {
 	}
 	switch t.Underlying().(type) {
 	case *types.Slice:
-		return fmt.Sprintf("(and (<= 0 (s-off %s)) (<= 0 (s-len %s)) (<= (s-len %s) (s-cap %s)) (>= (s-ref %s) 0) (=> (= (s-ref %s) 0) (= (s-cap %s) 0)))", term, term, term, term, term, term, term)
+		return fmt.Sprintf("(and (<= 0 (s-off %s)) (<= 0 (s-len %s)) (<= (s-len %s) (s-cap %s)) (<= (+ (s-off %s) (s-cap %s)) 9223372036854775807) (>= (s-ref %s) 0) (=> (= (s-ref %s) 0) (= (s-cap %s) 0)))", term, term, term, term, term, term, term, term, term)
 	case *types.Pointer, *types.Map, *types.Chan, *types.Signature:
 		return fmt.Sprintf("(>= %s 0)", term)
 	}
